@@ -33,6 +33,8 @@ PROP = dict(
         "reference evaluator in harness/src/bin/c31.rs (i64 checked arithmetic, Euclidean %, f64 host arithmetic, Rust `{}` float rendering)",
     ],
     assumptions=[
+        "named call arguments, leading-dot variants and lambdas as operands are outside the token-level model; the harness checks them against "
+        "fixed expected trees (Rust-side oracle) only",
         "token-level model: lambda speculation (`x -> e`), named call arguments (`f(x = e)`), match/if/block/task terms and the "
         "leading-dot form are not modelled; the generators never produce `->`, `=`, `{`, `if`, `match`, `task` or a leading `.`",
         "a prefix-operator expression is an expression of the operator's documented level (unary minus 6, not 10) and is "
